@@ -5,6 +5,7 @@ from __future__ import absolute_import, division
 
 import re
 from collections import OrderedDict
+from decimal import Decimal
 
 from .CommonMixin import CommonMixin
 
@@ -133,6 +134,30 @@ PAT_PARAMETER_OR_STR = (
 #   2 - Parameter value if any
 #   3 - Non letter char
 REGEX_PARAMETER_OR_STR = re.compile(PAT_PARAMETER_OR_STR)
+
+
+def formatNumber(value):
+    """
+    Format a number for use in a Gcode command.
+
+    Very small or large floats are rendered by Python in exponent notation (e.g. 1e-05), which
+    firmware Gcode parsers do not understand.  This always produces plain decimal notation.
+
+    Parameters
+    ----------
+    value : float | int
+        The number to format.
+
+    Returns
+    -------
+    string
+        The shortest plain decimal representation of the number.
+    """
+    text = str(value)
+    if (isinstance(value, float) and (("e" in text) or ("E" in text))):
+        text = format(Decimal(text), "f")
+
+    return text
 
 
 class GcodeParser(CommonMixin):  # pylint: disable=too-many-instance-attributes
@@ -514,7 +539,7 @@ class GcodeParser(CommonMixin):  # pylint: disable=too-many-instance-attributes
         if (paramsDict is not None):
             for key, val in paramsDict.items():
                 if (val is not None):
-                    key += str(val)
+                    key += formatNumber(val)
 
                 if (key):
                     vals.append(key)
